@@ -56,4 +56,32 @@ theorem C17_jsonnum_limit (cfg : Config) (text : List Nat) (d : Dec) (hp : parse
   unfold Serde.jsonNumDeserialize
   rw [hp]; simp [hover, hl]
 
+/-- the scale-limit test decides the outcome completely: a parsable literal is accepted with exactly the
+    parsed (digits, scale) pair iff its scale is within the configured limit (or the limit is disabled) -/
+theorem C17_jsonnum_limit_iff (cfg : Config) (text : List Nat) (d : Dec) (hp : parseDec text = some d) :
+    (Serde.jsonNumDeserialize cfg text = some d ↔
+      (d.scale.natAbs ≤ cfg.serdeScaleLimit ∨ cfg.serdeScaleLimit = 0)) ∧
+    (Serde.jsonNumDeserialize cfg text = none ↔
+      (d.scale.natAbs > cfg.serdeScaleLimit ∧ cfg.serdeScaleLimit > 0)) := by
+  unfold Serde.jsonNumDeserialize
+  rw [hp]
+  by_cases h : d.scale.natAbs > cfg.serdeScaleLimit ∧ cfg.serdeScaleLimit > 0
+  · simp only [h, and_self, if_true]
+    constructor
+    · constructor
+      · intro h'; cases h'
+      · intro h'; omega
+    · simp
+  · simp only [h, if_false]
+    constructor
+    · constructor
+      · intro _; omega
+      · intro _; trivial
+    · simp
+
+/-- unparsable text is always refused, whatever the limit -/
+theorem C17_jsonnum_reject (cfg : Config) (text : List Nat) (hp : parseDec text = none) :
+    Serde.jsonNumDeserialize cfg text = none := by
+  unfold Serde.jsonNumDeserialize; rw [hp]
+
 end BigDec
